@@ -861,7 +861,7 @@ func indexSpec(idx *schema.Index) (*sqlspec.Index, error) {
 		spec.Extra.Attrs = append(spec.Extra.Attrs, attr)
 	}
 	if i := (IndexPredicate{}); sqlx.Has(idx.Attrs, &i) && i.P != "" {
-		spec.Extra.Attrs = append(spec.Extra.Attrs, specutil.VarAttr("where", strconv.Quote(i.P)))
+		spec.Extra.Attrs = append(spec.Extra.Attrs, schemahcl.StringAttr("where", i.P))
 	}
 	if i := (IndexNullsDistinct{}); sqlx.Has(idx.Attrs, &i) && !i.V {
 		spec.Extra.Attrs = append(spec.Extra.Attrs, schemahcl.BoolAttr("nulls_distinct", i.V))
